@@ -9,7 +9,7 @@
 
 enum { T_LIT, T_CONST, T_MUT, NTERM };
 static const char* TERM[] = {"2", "K", "v"};
-enum { L_CONST, L_FUN, L_ARITH, NLINK };
+enum { L_CONST, L_FUN, L_ARITH, L_CONSTARR, L_CONSTIF, NLINK };
 // how a function body depends on its operand X (all return a small positive value)
 static const int NREAD = 8;
 static std::string fbody(int r, const std::string& X)
@@ -32,7 +32,7 @@ static const char* CTXNAME[] = {"array-size", "range-bound", "scalar-set-size", 
 
 static std::string model(int ctx, const std::string& decls, const std::string& E)
 {
-    std::string s = "const int K = 2; int v = 2; int id(int a) { return a; }\n" + decls;
+    std::string s = "const int K = 2; int v = 2; int id(int a) { return a; }\nconst int carr[4] = {1, 2, 3, 4}; const struct { int f; } crec[3] = {{1}, {2}, {3}};\n" + decls;
     switch (ctx) {
     case C_ARRSIZE: s += "int arr[" + E + "];\n"; break;
     case C_RANGE: s += "int[0, " + E + "] rv;\n"; break;
@@ -50,7 +50,7 @@ static std::string model(int ctx, const std::string& decls, const std::string& E
     return s;
 }
 
-extern "C" void harness_chain()  /* vf: bounds=10_contexts_x_chain_length_0..2_(links:const_initialiser,function_body,arithmetic)_x_8_function_read_forms_x_3_terminals(literal,const,mutable) */
+extern "C" void harness_chain()  /* vf: bounds=10_contexts_x_chain_length_0..2_(links:const_initialiser,function_body,arithmetic,element_of_a_constant_array,inline-if_between_constants)_x_8_function_read_forms_x_3_terminals(literal,const,mutable) */
 {
     int ctx = vf_pick("!context", NCTX), term = vf_pick("!terminal", NTERM), len = vf_range("!length", 0, 2);
     std::string decls, E = TERM[term];
@@ -59,6 +59,8 @@ extern "C" void harness_chain()  /* vf: bounds=10_contexts_x_chain_length_0..2_(
         std::string n = std::to_string(i);
         if (link == L_CONST) { decls += "const int c" + n + " = " + E + ";\n"; E = "c" + n; }
         else if (link == L_FUN) { int r = vf_pick("!read", NREAD); decls += "int f" + n + "() { " + fbody(r, E) + " }\n"; E = "f" + n + "()"; }
+        else if (link == L_CONSTARR) E = "carr[" + E + " % 3]";             // an element of a constant array is const-typed, yet reads its index
+        else if (link == L_CONSTIF) E = "(" + E + " > 0 ? crec[1].f : carr[0])";   // an inline-if between constants is const-typed, yet reads its condition
         else E = "(" + E + " + 1)";
     }
     Model m;
@@ -79,6 +81,8 @@ extern "C" void harness_chain3()  /* vf: tier=thorough bounds=10_contexts_x_chai
         std::string n = std::to_string(i);
         if (link == L_CONST) { decls += "const int c" + n + " = " + E + ";\n"; E = "c" + n; }
         else if (link == L_FUN) { int r = vf_pick("!read", NREAD); decls += "int f" + n + "() { " + fbody(r, E) + " }\n"; E = "f" + n + "()"; }
+        else if (link == L_CONSTARR) E = "carr[" + E + " % 3]";
+        else if (link == L_CONSTIF) E = "(" + E + " > 0 ? crec[1].f : carr[0])";
         else E = "(" + E + " + 1)";
     }
     Model m;
